@@ -137,6 +137,8 @@ fn main() {
         "damage" => {
             if let Some(img) = arg(&args, "--replay") {
                 damage::replay(img, arg(&args, "--history").unwrap());
+            } else if args.iter().any(|a| a == "--dirty-slots") {
+                damage::dirty_slots(arg_u64(&args, "--seed", 1), arg(&args, "--bases").unwrap(), arg_u64(&args, "--count", 200));
             } else if args.iter().any(|a| a == "--stale") {
                 damage::stale(arg_u64(&args, "--seed", 1), arg(&args, "--bases").unwrap(), arg_u64(&args, "--count", 300), arg_u64(&args, "--max-ops", 12),
                     arg(&args, "--outdir").unwrap(), arg(&args, "--list").unwrap());
